@@ -226,6 +226,7 @@ def judgeLine (s0 : JState) (line : String) : JState :=
           else if k == "mod" then
             if s.frames.any (fun f => match f with | Frame.dest _ => true | _ => false) then s
             else s.flag s!"move_or_destruct-outside-destruct {line}"
+          else if k == "act" then s   -- a command reached the action of a live object (checked above)
           else s.flag s!"unexpected-line {line}"
         { s with frames := Frame.hook x :: s.frames }
       | none => s.flag s!"unexpected-line {line}"
@@ -266,7 +267,12 @@ def judgeLine (s0 : JState) (line : String) : JState :=
       let s := stepEvent s
       if res == "ok" then useLive s "living-name" line (jOid a) else s
     | ["r", "kp", _x, a, res] => if res == "ok" then useLive s "reference" line (jOid a) else s
-    | ["r", "rd", _x, v] => useLive s "reference-read" line (jOid v)
+    | ["r", "rd", _x, v, va, vm] =>
+      -- global variable, array element, mapping value: all three read the same
+      let s := useLive (useLive (useLive s "reference-read" line (jOid v)) "reference-read" line (jOid va)) "reference-read" line (jOid vm)
+      if v == va && v == vm then s else s.flag s!"reference-reads-differ {line}"
+    | ["r", "aa", a, _v, res] => if res == "ok" then useLive (stepEvent s) "add_action" line (jOid a) else s
+    | ["r", "cmd", _a, _v, _res] => stepEvent s   -- the issuer may have been destructed by the action it triggered
     | ["r", "ld", _n, v, k] =>
       let s := stepEvent s
       let s := useLive s "loaded" line (jOid v)
